@@ -11,6 +11,7 @@ import (
 	"errors"
 	"fmt"
 	"math/rand"
+	"strings"
 	"time"
 
 	sentinel "github.com/alibaba/sentinel-golang/api"
@@ -67,18 +68,26 @@ type family struct {
 
 var edits = []string{"none(identical list)", "other-resource-add", "other-resource-remove", "other-resource-modify", "same-resource-add-inert-before", "same-resource-add-inert-after", "same-resource-remove-inert", "same-resource-modify-inert", "duplicate-kept", "reorder",
 	// a never-binding rule with the SAME statistic parameters as the unchanged rule is modified and moved in front of it
-	"stat-sharing-rule-modified-and-moved-before"}
+	"stat-sharing-rule-modified-and-moved-before",
+	// ... or stands in front of it and is removed, or modified and moved behind it
+	"stat-sharing-rule-before-removed", "stat-sharing-rule-before-modified-and-moved-after"}
 
 // list layout helper: returns the positions of (inert rules, unchanged rule) for the stage
 //
 //	stage 0: depends on the edit so that the edit is possible (e.g. remove needs an inert rule to be present)
 //
-// shareLayout: for the stat-sharing edit: 0 = no such rule, 1 = after the unchanged rule (original), 2 = before it (modified)
+// shareLayout: for the stat-sharing edits: 0 = no such rule, 1 = after the unchanged rule (original), 2 = before it
+// (modified), 3 = before it (original), 4 = after it (modified)
 func shareLayout(edit string, stage int) int {
-	if edit != "stat-sharing-rule-modified-and-moved-before" {
-		return 0
+	switch edit {
+	case "stat-sharing-rule-modified-and-moved-before": // [U, S] -> [S', U]
+		return 1 + stage
+	case "stat-sharing-rule-before-removed": // [S, U] -> [U]
+		return 3 * (1 - stage)
+	case "stat-sharing-rule-before-modified-and-moved-after": // [S, U] -> [U, S']
+		return 3 + stage
 	}
-	return 1 + stage
+	return 0
 }
 
 func layout(edit string, stage int) (inertBefore, inertAfter int, dup bool, inertVariant int, other int) {
@@ -104,7 +113,7 @@ func layout(edit string, stage int) (inertBefore, inertAfter int, dup bool, iner
 		return 0, stage, true, 0, 1
 	case "reorder":
 		return 1 - stage, stage, false, 0, 1
-	case "stat-sharing-rule-modified-and-moved-before":
+	case "stat-sharing-rule-modified-and-moved-before", "stat-sharing-rule-before-removed", "stat-sharing-rule-before-modified-and-moved-after":
 		return 0, 0, false, 0, 1
 	}
 	return 0, 0, false, 0, 0
@@ -119,6 +128,10 @@ func flowRule(R string, fam string, variant int) *flow.Rule {
 		return &flow.Rule{ID: "unchanged", Resource: R, TokenCalculateStrategy: flow.Direct, ControlBehavior: flow.Reject, Threshold: float64(2 + variant%3), StatIntervalInMs: iv}
 	case "flow-throttling":
 		return &flow.Rule{ID: "unchanged", Resource: R, TokenCalculateStrategy: flow.Direct, ControlBehavior: flow.Throttling, Threshold: float64(5 + 5*(variant%3)), MaxQueueingTimeMs: 400}
+	case "flow-associated":
+		// the unchanged rule meters the traffic of ANOTHER resource (R-ref), on the shared or on its own window
+		return &flow.Rule{ID: "unchanged", Resource: R, TokenCalculateStrategy: flow.Direct, ControlBehavior: flow.Reject, Threshold: float64(2 + variant%3),
+			RelationStrategy: flow.AssociatedResource, RefResource: R + "-ref", StatIntervalInMs: []uint32{0, 300, 3000, 20000}[variant%4]} // (all divide the one-hour shift between the twin runs)
 	default: // flow-warmup
 		return &flow.Rule{ID: "unchanged", Resource: R, TokenCalculateStrategy: flow.WarmUp, ControlBehavior: flow.Reject, Threshold: float64(10 + 10*(variant%2)), WarmUpPeriodSec: uint32(3 + variant%3), WarmUpColdFactor: uint32(3 * (variant % 2))}
 	}
@@ -139,18 +152,22 @@ func flowFamily(name string) *family {
 			if modified {
 				x.Threshold = 2e9
 			}
+			if x.ControlBehavior == flow.Throttling {
+				// (a throttling rule is never inert: it asks for sleeps of >= 1 ns however large its threshold)
+				x.ControlBehavior = flow.Reject
+			}
 			return x
 		}
 		var rs []*flow.Rule
 		for k := 0; k < ib; k++ {
 			rs = append(rs, inert(k))
 		}
-		if shareLayout(c.Edit, stage) == 2 {
-			rs = append(rs, share(true))
+		if sl := shareLayout(c.Edit, stage); sl == 2 || sl == 3 {
+			rs = append(rs, share(sl == 2))
 		}
 		rs = append(rs, flowRule(R, name, c.Variant))
-		if shareLayout(c.Edit, stage) == 1 {
-			rs = append(rs, share(false))
+		if sl := shareLayout(c.Edit, stage); sl == 1 || sl == 4 {
+			rs = append(rs, share(sl == 4))
 		}
 		if dup {
 			rs = append(rs, flowRule(R, name, c.Variant))
@@ -158,12 +175,29 @@ func flowFamily(name string) *family {
 		for k := 0; k < ia; k++ {
 			rs = append(rs, inert(10+k))
 		}
+		otherThr := float64(other)
+		if name == "flow-associated" {
+			// the "other" resource is the referenced one and its own rule is inert (a binding rule there would
+			// legitimately change what the unchanged rule counts)
+			O, otherThr = R+"-ref", 1e9+float64(other)
+		}
 		if perRes {
+			if name == "flow-associated" && strings.HasPrefix(c.Edit, "other-resource") {
+				if stage == 0 {
+					flow.LoadRulesOfResource(R, rs)
+				}
+				if other > 0 {
+					flow.LoadRulesOfResource(O, []*flow.Rule{{ID: "other", Resource: O, TokenCalculateStrategy: flow.Direct, ControlBehavior: flow.Reject, Threshold: otherThr}})
+				} else {
+					flow.ClearRulesOfResource(O)
+				}
+				return
+			}
 			flow.LoadRulesOfResource(R, rs)
 			return
 		}
 		if other > 0 {
-			rs = append(rs, &flow.Rule{ID: "other", Resource: O, TokenCalculateStrategy: flow.Direct, ControlBehavior: flow.Reject, Threshold: float64(other)})
+			rs = append(rs, &flow.Rule{ID: "other", Resource: O, TokenCalculateStrategy: flow.Direct, ControlBehavior: flow.Reject, Threshold: otherThr})
 		}
 		flow.LoadRules(rs)
 	}
@@ -188,6 +222,17 @@ func flowFamily(name string) *family {
 		f.genOp = func(rng *rand.Rand, i int) op {
 			if rng.Intn(3) == 0 {
 				return op{K: "adv", Dt: []uint64{1, 20, 50, 100, 200, 600}[rng.Intn(6)]}
+			}
+			return op{K: "req"}
+		}
+	case "flow-associated":
+		f.nops = func(rng *rand.Rand) int { return 20 + rng.Intn(50) }
+		f.genOp = func(rng *rand.Rand, i int) op {
+			switch k := rng.Intn(10); {
+			case k < 2:
+				return op{K: "adv", Dt: []uint64{50, 100, 250, 500, 700, 1000, 1500}[rng.Intn(7)]}
+			case k < 6:
+				return op{K: "ref"} // a request on the referenced resource
 			}
 			return op{K: "req"}
 		}
@@ -229,12 +274,12 @@ func cbFamily() *family {
 		for k := 0; k < ib; k++ {
 			rs = append(rs, inert(k))
 		}
-		if shareLayout(c.Edit, stage) == 2 {
-			rs = append(rs, share(true))
+		if sl := shareLayout(c.Edit, stage); sl == 2 || sl == 3 {
+			rs = append(rs, share(sl == 2))
 		}
 		rs = append(rs, mk())
-		if shareLayout(c.Edit, stage) == 1 {
-			rs = append(rs, share(false))
+		if sl := shareLayout(c.Edit, stage); sl == 1 || sl == 4 {
+			rs = append(rs, share(sl == 4))
 		}
 		if dup {
 			rs = append(rs, mk())
@@ -302,12 +347,12 @@ func hotFamily(name string) *family {
 		for k := 0; k < ib; k++ {
 			rs = append(rs, inert(k))
 		}
-		if shareLayout(c.Edit, stage) == 2 {
-			rs = append(rs, share(true))
+		if sl := shareLayout(c.Edit, stage); sl == 2 || sl == 3 {
+			rs = append(rs, share(sl == 2))
 		}
 		rs = append(rs, mk())
-		if shareLayout(c.Edit, stage) == 1 {
-			rs = append(rs, share(false))
+		if sl := shareLayout(c.Edit, stage); sl == 1 || sl == 4 {
+			rs = append(rs, share(sl == 4))
 		}
 		if dup {
 			rs = append(rs, mk())
@@ -354,7 +399,7 @@ func hotFamily(name string) *family {
 	return f
 }
 
-var families = []*family{flowFamily("flow-reject"), flowFamily("flow-throttling"), flowFamily("flow-warmup"), cbFamily(), hotFamily("hotspot-qps"), hotFamily("hotspot-concurrency")}
+var families = []*family{flowFamily("flow-reject"), flowFamily("flow-throttling"), flowFamily("flow-warmup"), flowFamily("flow-associated"), cbFamily(), hotFamily("hotspot-qps"), hotFamily("hotspot-concurrency")}
 
 func exec(f *family, c *caseDesc, reload bool, t0 uint64) []obs {
 	caseNo++
@@ -373,6 +418,12 @@ func exec(f *family, c *caseDesc, reload bool, t0 uint64) []obs {
 		switch o.K {
 		case "adv":
 			clk.AddMs(o.Dt)
+		case "ref":
+			e, b := sentinel.Entry(R + "-ref")
+			out = append(out, obs{Adm: b == nil})
+			if b == nil {
+				e.Exit()
+			}
 		case "req":
 			clk.TakeSleeps()
 			var opts []sentinel.EntryOption
